@@ -200,17 +200,17 @@ class Mode:
                 if r != "sat":
                     return self._rec(name, "undecided", "z3", dt, detail="values differ on a path whose feasibility is unknown")
                 real = P.numeric_counterexample(fs, ("atom", alg.v_sub(vg, ve), "=="), model)
-                return self._rec(name, "failed", "z3+polyid", time.time() - t, cex={"env": real if real is not None else model},
+                return self._rec(name, "failed", "z3+polyid", time.time() - t, cex={"env": real if real is not None else model, "diff": P.LAST_DIFF[0] if real is not None else 0.0},
                                  got=alg.fmt(vg, 8), exp=alg.fmt(ve, 8), detail="differs on a feasible path (a value-dependent branch in the code)")
             cex = find_counterexample(vg, ve, self.used)
             return self._rec(name, "failed", "polyid", time.time() - t, cex=cex,
                              got=alg.fmt(vg, 8), exp=alg.fmt(ve, 8))
-        if self.wanted is not None and name != self.wanted:
+        if self.wanted is not None and _nopath(name) != _nopath(self.wanted):
             return None
         return self._rec(name, "value", self.kind, 0.0, got=_num(got), exp=_num(exp))
 
     def true(self, name, cond, detail="", backend="run"):
-        if self.wanted is not None and name != self.wanted and not self.symbolic:
+        if self.wanted is not None and _nopath(name) != _nopath(self.wanted) and not self.symbolic:
             return None
         return self._rec(name, "discharged" if cond else "failed", backend, 0.0, detail=detail,
                          cex={"env": {k: str(v) for k, v in self.env.items()}} if not cond else None)
@@ -357,7 +357,7 @@ def _parse_num(x):
 def _nopath(name):
     import re
 
-    return re.sub(r"/path\d+/", "/path*/", name)
+    return re.sub(r"^path\d+/", "", re.sub(r"/path\d+/", "/path*/", name))
 
 
 def _num(x):
@@ -667,9 +667,9 @@ def _float_env(env):
 # native replay (fresh plain interpreter, no proxy)
 
 
-def native_replay(ref, shape, env, obligation, prop, tol_rel):
+def native_replay(ref, shape, env, obligation, prop, tol_rel, sample_seed=None):
     """call the unmodified code in a fresh interpreter at the counterexample; returns verdict dict"""
-    payload = {"harness": ref, "shape": shape, "env": env, "obligation": obligation}
+    payload = {"harness": ref, "shape": shape, "env": env, "obligation": obligation, "sample_seed": sample_seed}
     cmd = [sys.executable, "-m", "engine.replay_native"]
     p = subprocess.run(cmd, input=json.dumps(payload), capture_output=True, text=True, cwd=VERIF,
                        timeout=600)
@@ -827,15 +827,15 @@ def summarize(check, tier, seed, records, wall, extra_bounded=None):
     order, seen_fam = [], set()
     for item in failed:
         fam = (item[1]["harness"], _shape_tag(item[1]["shape"]), item[2]["name"].split("[")[0].rsplit("/", 1)[-1])
-        order.append((fam in seen_fam, len(order), item))
+        order.append((fam in seen_fam, -float((item[2].get("cex") or {}).get("diff") or 0.0), len(order), item))
         seen_fam.add(fam)
-    failed = [it for _, _, it in sorted(order, key=lambda t: (t[0], t[1]))]
+    failed = [it for _, _, _, it in sorted(order, key=lambda t: (t[0], t[1], t[2]))]
     for full, rec, r in failed:
         kf = match_known(prop, full, known)
         verdict = None
         if r.get("cex") and r["cex"].get("env") is not None and rec.get("harness") and nreplay < 8:
             nreplay += 1
-            verdict = native_replay(rec["harness"], rec["shape"], r["cex"]["env"], r["name"], prop, 1e-8)
+            verdict = native_replay(rec["harness"], rec["shape"], r["cex"]["env"], r["name"], prop, 1e-8, rec.get("sample_seed"))
         if kf is not None:
             if kf["id"] not in seen_known:
                 seen_known.add(kf["id"])
@@ -844,7 +844,7 @@ def summarize(check, tier, seed, records, wall, extra_bounded=None):
         tag = hashlib.sha1(full.encode()).hexdigest()[:10]
         path = os.path.join(VERIF, "replays", "%s-%s.json" % (prop, tag))
         confirmed = bool(verdict and verdict.get("verdict") == "native-disagrees-with-spec")
-        doc = {"property": prop, "obligation": full, "harness": rec["harness"], "shape": rec["shape"],
+        doc = {"property": prop, "obligation": full, "name": r["name"], "sample_seed": rec.get("sample_seed"), "harness": rec["harness"], "shape": rec["shape"],
                "verifier_output": {k: r.get(k) for k in ("got", "exp", "detail", "backend", "cex")},
                "native_replay": verdict,
                "rerun": "cd /verif && ./vcheck --replay %s" % path}
